@@ -17,7 +17,7 @@ static void run_case(long idx)
     /* stratum "sub-blocks": every 8th case is a multi-block input with targetCBlockSize on and data whose blocks mix
      * compressible and incompressible stretches (state carried from one block to the next: repcodes, entropy tables) */
     int const sbStratum = (idx % 8) == 7;
-    if (sbStratum) { static const int fams[] = { DF_REPBAIT, DF_REPBAIT, DF_ISLANDS, DF_MIX, DF_LZ, DF_LONGREP }; fam = fams[vr_u(&r, 6)];
+    if (sbStratum) { static const int fams[] = { DF_REPBAIT, DF_REPBAIT, DF_ISLANDS, DF_MIX, DF_LZ, DF_LONGREP, DF_SPARSE, DF_SPARSE }; fam = fams[vr_u(&r, 8)];
         ep = EP_COMPRESS2; size_t const two = (256u << 10) + 1 + vr_u(&r, 40000); n = two <= g_maxSize ? two + vr_u64(&r, g_maxSize - two + 1) : g_maxSize; }
     gbuf src = gb_alloc(n, (int)vr_u(&r, 2));
     gen_data(&r, src.p, n, fam);
